@@ -167,6 +167,17 @@ def build_c_driver(name, sources, extra_cflags=(), extra_ldflags=(), exclude_obj
     return exe
 
 
+SIM_WRAPS = ["gettimeofday", "select", "socket", "connect", "fcntl", "getpeername", "getaddrinfo", "freeaddrinfo",
+             "send", "recv", "close", "res_query", "setsockopt", "usleep", "getrandom"]
+
+
+def build_simworld(name="simworld", extra_sources=(), extra_cflags=()):
+    """The simulated-world driver: library objects minus tls_openssl.o, harness TLS, ld --wrap."""
+    srcs = [os.path.join(ROOT, "harness", "c", "simworld.c")] + list(extra_sources)
+    ld = ["-Wl," + ",".join("--wrap=" + w for w in SIM_WRAPS)]
+    return build_c_driver(name, srcs, extra_cflags=extra_cflags, extra_ldflags=ld, exclude_objs=("tls_openssl.o",))
+
+
 # --------------------------------------------------------------------------------------
 # Coq
 # --------------------------------------------------------------------------------------
